@@ -301,6 +301,9 @@ func (ln *LeafNode) Decode(buf []byte) error {
 	ln.Prefix = buf[:idx]
 	buf = buf[idx+1:]
 	idx = bytes.IndexByte(buf, Separator)
+	if idx < 0 {
+		return ErrInvalidEncoding
+	}
 	ln.Path = buf[:idx]
 	buf = buf[idx+1:]
 	if len(buf) == 0 {
@@ -454,6 +457,10 @@ func (fn *FullNode) Decode(buf []byte) error {
 			return ErrInvalidEncoding
 		}
 		if idx > 0 {
+			// a child key is 32 bytes, hex encoded
+			if idx != 64 {
+				return ErrInvalidEncoding
+			}
 			key := make([]byte, 32)
 			_, err := hex.Decode(key, buf[:idx])
 			if err != nil {
@@ -757,7 +764,7 @@ func CreateNode(r io.Reader) (Node, error) {
 	case NodeTypeExtensionNode:
 		node = NewExtensionNode(nil, nil)
 	default:
-		panic(fmt.Sprintf("unknown node type: %v", code))
+		return nil, ErrInvalidEncoding
 	}
 	var ot OriginTracker
 	_ = ot.Read(r)
